@@ -174,7 +174,7 @@ func (eng *Engine) exec(fn *ssa.Function, in ssa.Instruction, env *Env) []*Env {
 		if c, ok := t.Len.(*ssa.Const); ok && c.Value != nil && constant.Sign(c.Value) == 0 {
 			zeroLen = true
 		}
-		if !zeroLen && !eng.totalInit(t) {
+		if !zeroLen && !eng.totalInit(t) && !totalInitByCopy(t) {
 			z := zeroAV(et)
 			if z.K == KStruct {
 				eng.writeAtInit(env, oid, "[]", z, et)
@@ -1066,4 +1066,58 @@ func funcTableBindings(v ssa.Value) []*ssa.MakeClosure {
 		}
 	}
 	return out
+}
+
+// totalInitByCopy: make([]T, len(a)+len(b)) (or len(a)) that is filled completely, in its own block, by
+// copy(s, a) and copy(s[len(a):], b) — the concatenation idiom. No element keeps its zero value.
+func totalInitByCopy(ms *ssa.MakeSlice) bool {
+	lenArg := func(v ssa.Value) ssa.Value {
+		c, ok := v.(*ssa.Call)
+		if !ok {
+			return nil
+		}
+		if b, ok := c.Call.Value.(*ssa.Builtin); !ok || b.Name() != "len" {
+			return nil
+		}
+		return c.Call.Args[0]
+	}
+	var parts []ssa.Value
+	if a := lenArg(ms.Len); a != nil {
+		parts = []ssa.Value{a}
+	} else if bo, ok := ms.Len.(*ssa.BinOp); ok && bo.Op == token.ADD {
+		a, b := lenArg(bo.X), lenArg(bo.Y)
+		if a == nil || b == nil {
+			return false
+		}
+		parts = []ssa.Value{a, b}
+	} else {
+		return false
+	}
+	copied := make([]bool, len(parts))
+	isCopyOf := func(in ssa.Instruction, dst ssa.Value, src ssa.Value) bool {
+		c, ok := in.(*ssa.Call)
+		if !ok || c.Block() != ms.Block() {
+			return false
+		}
+		b, ok := c.Call.Value.(*ssa.Builtin)
+		return ok && b.Name() == "copy" && c.Call.Args[0] == dst && c.Call.Args[1] == src
+	}
+	for _, r := range *ms.Referrers() {
+		if ri, ok := r.(ssa.Instruction); ok && isCopyOf(ri, ms, parts[0]) {
+			copied[0] = true
+		}
+		if sl, ok := r.(*ssa.Slice); ok && len(parts) == 2 && sl.High == nil && sl.Low != nil && lenArg(sl.Low) == parts[0] {
+			for _, rr := range *sl.Referrers() {
+				if isCopyOf(rr, sl, parts[1]) {
+					copied[1] = true
+				}
+			}
+		}
+	}
+	for _, c := range copied {
+		if !c {
+			return false
+		}
+	}
+	return true
 }
